@@ -26,15 +26,16 @@ theorem encPairs_append : ∀ (xs : List Int) (st : Oki.St) (ys : List Int), xs.
     rw [List.cons_append, List.cons_append, encPairs_cons2, encPairs_cons2, ih]
     rfl
 
-/-- `vox_write_block` on an even number of samples: the pair encoder over all of them, the count exact -/
-theorem writeBlock_even : ∀ (fuel : Nat) (st : Oki.St) (xs : List Int), xs.length % 2 = 0 → xs.length < fuel →
-    Oki.writeBlock fuel st xs xs.length = ((Oki.encPairs st xs).1, (Oki.encPairs st xs).2, xs.length) := by
+/-- `vox_write_block` before the repair of KF-VOX-ODD, on an even number of samples: the pair encoder over all of them,
+    the count exact -/
+theorem writeBlockOld_even : ∀ (fuel : Nat) (st : Oki.St) (xs : List Int), xs.length % 2 = 0 → xs.length < fuel →
+    Oki.writeBlockOld fuel st xs xs.length = ((Oki.encPairs st xs).1, (Oki.encPairs st xs).2, xs.length) := by
   intro fuel
   induction fuel with
   | zero => intro st xs _ h; omega
   | succ fuel ih =>
     intro st xs he hf
-    unfold Oki.writeBlock
+    unfold Oki.writeBlockOld
     by_cases hn : xs.length = 0
     · have : xs = [] := List.length_eq_zero_iff.mp hn
       subst this
